@@ -9,6 +9,7 @@ import (
 	"sort"
 	"strconv"
 	"strings"
+	"time"
 
 	simdjson "github.com/minio/simdjson-go"
 )
@@ -111,8 +112,9 @@ func (c *opsCase) name() string {
 }
 
 func (c *opsCase) emit(op string) string {
-	out := c.st.exec(op)
+	out := c.st.execTimed(op, 30*time.Second)
 	c.tc.ops = append(c.tc.ops, op)
+	c.tc.impl = append(c.tc.impl, out)
 	return out
 }
 
@@ -153,6 +155,13 @@ func (c *opsCase) oneEditOn(roots []*node, pjName string) {
 	}
 	for _, op := range nav {
 		c.emit(op)
+	}
+	if r.chance(1, 3) {
+		// address the same value through an iterator restricted to it (as FindKey, NextElement, AdvanceIter and
+		// Elements hand out): replay the walk up to the entry before it, then AdvanceIter
+		if c.restrictedNav(n.off) {
+			c.emit("copyiter t tr")
+		}
 	}
 	scalarNum := n.kind == 'l' || n.kind == 'u' || n.kind == 'd' || n.kind == '"'
 	switch k := r.intn(10); {
@@ -304,6 +313,29 @@ func (c *opsCase) oneEditOn(roots []*node, pjName string) {
 		c.emit("type t")
 		c.expectLast(strconv.Itoa(typeOfKind(n.kind)))
 	}
+}
+
+// restrictedNav leaves in "tr" an iterator restricted to the value at tape offset target (via AdvanceIter
+// from an iterator positioned just before it). Only possible when the previous AdvanceInto step ends exactly
+// at target; reports whether it did.
+func (c *opsCase) restrictedNav(target int) bool {
+	it := c.pj.Iter()
+	c.emit("iter tq " + c.name())
+	for k := 0; k < len(c.pj.Tape)+2; k++ {
+		off, add, _, _, _ := simdjson.VerifIterState(&it)
+		if off+add == target {
+			out := c.emit("adviter tq tr")
+			return out != "err" && out != "0" && out != "panic"
+		}
+		if off+add > target {
+			return false
+		}
+		if it.AdvanceInto() == simdjson.TagEnd {
+			return false
+		}
+		c.emit("advinto tq")
+	}
+	return false
 }
 
 // gateEdit addresses a tape entry that is not a value (a root or an end tag) with a random Set* call:
@@ -482,6 +514,18 @@ containers:
 			}
 			c.emit("map o")
 			c.expectLast(n.ifaceStr())
+			if r.chance(1, 2) {
+				// fill the destination from another object first: nothing of it may survive
+				if other := firstOtherObject(roots, n); other != nil {
+					if nav2, ok := navOps(c.pj, "t2", c.name(), other.off); ok {
+						for _, op := range nav2 {
+							c.emit(op)
+						}
+						c.emit("object o2 t2")
+						c.emit("parseobj es o2")
+					}
+				}
+			}
 			c.emit("parseobj es o")
 			{
 				parts := make([]string, len(n.children))
@@ -550,6 +594,20 @@ containers:
 		c.emit("findelem fe fe2 " + strings.Join(path, " "))
 		c.expectLast(want)
 	}
+}
+
+func firstOtherObject(roots []*node, not *node) *node {
+	for _, rt := range roots {
+		if rt == nil {
+			continue
+		}
+		for _, n := range rt.all(nil) {
+			if n.kind == '{' && n != not && len(n.keys) > 0 {
+				return n
+			}
+		}
+	}
+	return nil
 }
 
 func allContainers(roots []*node) bool {
@@ -825,9 +883,9 @@ func suiteOps(rn *runner, r *rng, tier string) {
 		c.pj = c.st.pjs["p"]
 		roots, err := refDecode(c.pj)
 		if err != nil {
-			c.tc.ops = append(c.tc.ops, "tape p")
+			c.emit("tape p")
 			c.tc.expect = map[int]string{1: "<well-formed tape: " + err.Error() + ">"}
-			rn.add(c.tc)
+			rn.addPrepared(c.tc)
 			continue
 		}
 		nEdits := cr.intn(6)
@@ -854,7 +912,7 @@ func suiteOps(rn *runner, r *rng, tier string) {
 		}
 		sort.Strings(ks)
 		c.tc.class = fmt.Sprintf("nd=%v/edits=%s/%s", nd, strings.Join(ks, "+"), sizeClass(len(text)))
-		rn.add(c.tc)
+		rn.addPrepared(c.tc)
 	}
 	rn.rep.Rule = "parse, 0-5 random in-place edits (Set*, DeleteElems on objects/arrays, SetNull on containers) at random value positions, then read back through every API family with expectations from an independent reference tree; distinct = (nd, set of edit kinds, size class)"
 }
